@@ -81,7 +81,8 @@ impl Context {
     pub fn define<N: Into<String>, V: Into<String>>(&mut self, name: N, value: V) -> &mut Self {
         let n = name.into();
         let v = value.into();
-        let rstring = format!("\\b{}\\b", &n);
+        // The name comes from the command line too (-D): it may contain anything
+        let rstring = format!("\\b{}\\b", regex::escape(&n));
         let regex = Regex::new(&rstring).unwrap();
         self.defs.insert(n.clone(), v.clone());
         self.defs_ex.last_mut().unwrap().push(n);
